@@ -117,10 +117,12 @@ theorem documented_release_all (threads : List (List String))
 
 /-! ### guarded-by table -/
 
-/-- pointers that `NewFile` / `OpenReader` load before any concurrent call; the
+/-- pointers that `NewFile` / `OpenReader` load before any concurrent call
+(`File.ContentTypes` since the fix that makes `OpenReader` preload it; before,
+the race detector reported `race:File.ContentTypes:AddPicture|AddPicture`); the
 lazy `if f.X == nil { f.X = … }` branch of their readers is dead afterwards
 (assumption, validated by the race detector) -/
-def preloaded : List Loc := [("File", "Styles"), ("File", "WorkBook")]
+def preloaded : List Loc := [("File", "Styles"), ("File", "WorkBook"), ("File", "ContentTypes")]
 
 /-- written by no API function (only read): cannot be raced on by API calls -/
 def readOnly : List Loc := [("File", "sheetMap"), ("Workbook", "fields")]
@@ -130,13 +132,12 @@ def readOnly : List Loc := [("File", "sheetMap"), ("Workbook", "fields")]
 under File.mu, drawing rels under the worksheet mutex) and the model merges them;
 `File.sharedStringItem/Temp` — the spill-to-disk shared-string index built lazily
 by `getFromStringItem` without a lock (only with `UnzipXMLSizeLimit` spilling);
-`File.ContentTypes` — lazily decoded by `contentTypesReader` on opened files,
-reached from `AddPicture` without File.mu; `Ws.MergeCells` — `mergeCellsParser`
+`Ws.MergeCells` — `mergeCellsParser`
 caches rectangles while `AddPicture`'s `drawingResize` reads merged cells.
 None of these was reported by the race detector. -/
 def notCovered : List Loc :=
   [("Rels", "list"), ("File", "sharedStringItem"), ("File", "sharedStringTemp"),
-   ("File", "ContentTypes"), ("Ws", "MergeCells")]
+   ("Ws", "MergeCells")]
 
 def allowedUnguarded : List Loc := preloaded ++ readOnly ++ notCovered
 
@@ -225,17 +226,6 @@ theorem covered_locations :
      ("Styles", "tables"), ("Sst", "SI"), ("File", "sharedStringsMap"), ("File", "SharedStrings"),
      ("File", "CalcChain"), ("CalcChain", "C"), ("ContentTypes", "list"), ("Drawing", "anchors")].all
       (fun x => !allowedUnguarded.contains x) = true := by decide
-
-/-- **finding_contentTypes_lazy_init_unguarded** (*no data race* clause fails on
-opened workbooks): `AddPicture` reads and writes the pointer `File.ContentTypes`
-(lazy decode in `contentTypesReader`) without holding `File.mu`, so two first
-`AddPicture` calls conflict on it with no common lock — the model predicts the
-race the detector reports (`race:File.ContentTypes:AddPicture|AddPicture`). The
-location is therefore in `notCovered`, not in the proved set. `NewFile` preloads
-the pointer, `OpenReader` does not. -/
-theorem finding_contentTypes_lazy_init_unguarded :
-    Impl.predictsRace ("File", "ContentTypes") "AddPicture" "AddPicture" = true ∧
-    (Impl.unguarded "AddPicture").contains ("File", "ContentTypes") = true := by decide +kernel
 
 /-! ### critical sections of the setters (linearization points) -/
 
